@@ -62,8 +62,10 @@ type Obs struct {
 	// FactorySeen: per user processor, how many registered components / definition scanners its
 	// component-factory hook found (all of them are registered by then, whatever the order).
 	FactorySeen map[string][2]int `json:"factorySeen,omitempty"`
-	SleptS      int               `json:"sleptS,omitempty"`
-	LoggerSet   map[string]bool   `json:"loggerSet,omitempty"`
+	// KindCalls: per instance, how often the container invoked its SimKind() method
+	KindCalls map[string]int  `json:"kindCalls,omitempty"`
+	SleptS    int             `json:"sleptS,omitempty"`
+	LoggerSet map[string]bool `json:"loggerSet,omitempty"`
 	// LoggerPref: per instance with two logger fields, the prefix of the logger in `Log` (tag
 	// value empty) and in `Log2` (explicit prefix).
 	LoggerPref map[string][2]string `json:"loggerPref,omitempty"`
